@@ -385,6 +385,17 @@ class StmtMixin:
         r = self.eval_clause(inv.node, inv.globs, ienv)
         self.ex.assume(self.bterm(self.truth_term(r)))
 
+    def run_pre_hint(self, inv, fr, ghost):
+        """lemma instances made available at the start of an arbitrary iteration (after the invariant is assumed)"""
+        if inv.pre_hint is None:
+            return
+        env = dict(fr.env)
+        env.update(ghost)
+        if fr.yielded is not None:
+            env['yielded'] = fr.yielded
+        params = [a.arg for a in inv.pre_hint_node.args.args]
+        self.eval_clause(inv.pre_hint_node, dict(inv.pre_hint.__globals__), {p: self.freeze(env[p]) for p in params})
+
     def run_hint(self, inv, fr, old):
         if inv.hint is None:
             return
@@ -429,6 +440,7 @@ class StmtMixin:
         if which == 0:
             self.ex.assume(z3.Length(rest.term) > 0)
             self.assume_invariant(inv, fr, {'done': done, 'rest': rest, 'all': seq})
+            self.run_pre_hint(inv, fr, {'done': done, 'rest': rest, 'all': seq})
             x = SV(rest.term[0], ety, oid=('elem', self.ex.fresh_name('x')))
             self.assign(node.target, x, fr)
             old = {'old_' + k: self.freeze(v) for k, v in fr.env.items()}
@@ -457,6 +469,7 @@ class StmtMixin:
         tt = self.bterm(self.truth_term(t))
         if which == 0:
             self.ex.assume(tt)
+            self.run_pre_hint(inv, fr, {})
             old = {'old_' + k: self.freeze(v) for k, v in fr.env.items()}
             if fr.yielded is not None:
                 old['old_yielded'] = self.freeze(fr.yielded)
